@@ -570,6 +570,19 @@ func runWorld(t *testing.T, tape *simrt.Tape, g simrt.Gen, layerB bool) *common.
 		}
 	}
 	samplePause := []time.Duration{500 * time.Millisecond, 30 * time.Millisecond, 4 * time.Second}[g.Int(3)]
+	if !layerB && g.Chance(1, 6) {
+		// bias towards the rarest race: a waiter is woken by a direct connection that is gone again before the waiter looks
+		initial = 0
+		for c := range callers { // several waiters: the later a woken waiter runs, the likelier the connection is gone
+			callers[c][0] = opSpec{api: apiSwarmNewStream, nodial: g.Bool(), timeout: 20 * time.Second, dpt: dpts[g.Int(len(dpts))]}
+		}
+		steps := []envStep{{kind: []int{eArmCloseInConnected, eFlapInbound, eFlapOutbound}[g.Int(3)], pre: durs[1+g.Int(3)]}}
+		if steps[0].kind == eArmCloseInConnected {
+			steps = append(steps, envStep{kind: []int{eBDialsA, eADialsDirect}[g.Int(2)], pre: durs[g.Int(3)]})
+			reachable = true
+		}
+		envs[0] = append(steps, envs[0]...)
+	}
 
 	if !layerB {
 		o.Logf("layer A: relay=%d(0 default limits,1 15s limit,2 unlimited) initial=%d(0 limited,1 none,2 direct,3 both) reachable=%v security=%s", relayMode, initial, reachable, secu)
@@ -860,15 +873,24 @@ func runWorld(t *testing.T, tape *simrt.Tape, g simrt.Gen, layerB bool) *common.
 						for _, c := range A.Swarm.ConnsToPeer(B.ID) {
 							if isRelayAddr(c.RemoteMultiaddr()) == (st.kind == eCloseLimitedAtA) {
 								c.Close()
+								if st.kind == eCloseLimitedAtA {
+									o.Fault("relayed-conn-closed-locally")
+								} else {
+									o.Fault("direct-conn-closed-locally")
+								}
 							}
 						}
 					case eCloseDirectAtB:
 						for _, c := range B.Swarm.ConnsToPeer(A.ID) {
 							if !isRelayAddr(c.RemoteMultiaddr()) {
 								c.Close()
+								o.Fault("direct-conn-closed-by-peer")
 							}
 						}
 					case eClosePeer:
+						if len(A.Swarm.ConnsToPeer(B.ID)) > 0 {
+							o.Fault("all-conns-closed-locally")
+						}
 						A.Swarm.ClosePeer(B.ID)
 					case eArmCloseInConnected:
 						w.v[0].closeNext = true
@@ -922,6 +944,14 @@ func runWorld(t *testing.T, tape *simrt.Tape, g simrt.Gen, layerB bool) *common.
 		takeSample()
 		simrt.TimeSleep(2 * time.Second)
 		takeSample()
+		for _, d := range n.Dials() {
+			switch {
+			case d.Outcome == "refused" && d.To == bDirect:
+				o.Fault("direct-dial-refused")
+			case d.Outcome == "blackholed":
+				o.Fault("dial-dropped-by-firewall")
+			}
+		}
 		finished = true
 	})
 	o.Sched = res
@@ -1086,7 +1116,8 @@ func (w *world) judgeA(sig *strings.Builder, postDirect string) {
 		if r.retAt-r.invAt > lim+slack {
 			o.Violate("C12/late-return/"+api, "%v returned after %v, its context ended after %v", sp, r.retAt-r.invAt, lim)
 		}
-		if sp.isStream() && !sp.allow && sp.nodial && r.retAt-r.invAt > sp.dialPeerTimeout()+slack && !directAdmittedIn(r.inv, r.ret) {
+		// (swarm level only: the host additionally waits for identify and protocol negotiation on the stream's connection)
+		if sp.api == apiSwarmNewStream && !sp.allow && sp.nodial && r.retAt-r.invAt > sp.dialPeerTimeout()+slack && !directAdmittedIn(r.inv, r.ret) {
 			o.Violate("C12/wait-exceeds-dial-peer-timeout/"+api, "%v took %v although no direct connection appeared meanwhile (dial-peer timeout %v)", sp, r.retAt-r.invAt, sp.dialPeerTimeout())
 		}
 		// (4) failures of the swarm-level stream open
